@@ -59,6 +59,43 @@ type claimEnv struct {
 	id    string         // the attempt's own id (an insider / the legitimate target knows it)
 	old   []string       // ids of earlier requests
 	other map[int]string // ids of concurrent attempts by launch position
+	// what the broker's own reply named as ClaimId (proxied mode; brokerNamed=false: nothing usable)
+	broker      string
+	brokerNamed bool
+}
+
+// ccbReplyClaims: what a broker's proxied reply may itself say about the connect id (results forwarded
+// by a broker do carry a ClaimId): nothing, the requester's own id, another id, an earlier request's,
+// garbage. Only the id the requester generated may ever gate the hello.
+var ccbReplyClaims = []string{"", "SAME", "RAND", "RAND", "OLD", "EMPTY", "INT", "PREFIX", "SUFFIX"}
+
+// replyClaim resolves a reply-claim kind: the attribute value (present=false: no attribute), the string
+// AdString would yield, and the model symbol.
+func ccbReplyClaim(kind, rnd string, env claimEnv) (val any, present bool, str string, sym string) {
+	if kind == "" {
+		return nil, false, "", ""
+	}
+	claim := kind
+	if kind == "SAME" {
+		claim = "ID"
+	}
+	v, pr, s, sy := ccbGreet{Claim: claim, Rand: rnd}.resolve(env)
+	if sy != "ID" && sy != "-" {
+		sy = "brk"
+	}
+	return v, pr, s, sy
+}
+
+// withReplyClaim adds the reply's own ClaimId (if any) to a reply ad's attributes and to the env the
+// replayed hello is rendered under; returns the suffix of the model's reply token.
+func ccbWithReplyClaim(attrs map[string]any, kind, rnd string, env *claimEnv) string {
+	val, present, str, sym := ccbReplyClaim(kind, rnd, *env)
+	if !present {
+		return ""
+	}
+	attrs[ccb.AttrClaimID] = val
+	env.broker, env.brokerNamed = str, true
+	return ":" + sym
 }
 
 // resolve returns the attribute value to send (present=false: no ClaimId at all), the string
@@ -93,6 +130,18 @@ func (g ccbGreet) resolve(env claimEnv) (val any, present bool, claim string, sy
 			if o != env.id {
 				return o, true, o, "old"
 			}
+		}
+		return g.Rand, true, g.Rand, "rnd"
+	case "BROKER":
+		// the id the broker's own reply named: a hello that presents what the PEER chose
+		if env.brokerNamed {
+			switch {
+			case env.broker == env.id:
+				return env.id, true, env.id, "ID"
+			case env.broker == "":
+				return "", true, "", "-"
+			}
+			return env.broker, true, env.broker, "brk"
 		}
 		return g.Rand, true, g.Rand, "rnd"
 	case "OTHER":
@@ -411,6 +460,8 @@ type ccbPlan struct {
 	PReply  string // proxy: ok | fail | unsup | close | junk
 	PMsg    string
 	PHello  ccbGreet
+	PClaim  string // proxy: a ClaimId the reply ad itself carries (ccbReplyClaims), "" = none
+	PRand   string
 }
 
 type ccbLogEntry struct {
@@ -707,12 +758,18 @@ func (b *ccbBroker) runProxy(ctx context.Context, c *cedarserver.Conn) {
 	b.peers = append(b.peers, p)
 	b.mu.Unlock()
 	at := time.Now()
-	defer func() { b.logOps(at, "PRX", ccbProxyReplyTok(b.Plan), p.Tok) }()
+	env := b.env()
+	claimTok := ""
+	defer func() { b.logOps(at, "PRX", ccbProxyReplyTok(b.Plan)+claimTok, p.Tok) }()
 	switch b.Plan.PReply {
 	case "ok":
-		_ = ccb.WriteControlAd(bg, c.Stream, ccb.NewAd(map[string]any{ccb.AttrResult: true}))
+		attrs := map[string]any{ccb.AttrResult: true}
+		claimTok = ccbWithReplyClaim(attrs, b.Plan.PClaim, b.Plan.PRand, &env)
+		_ = ccb.WriteControlAd(bg, c.Stream, ccb.NewAd(attrs))
 	case "fail":
-		_ = ccb.WriteControlAd(bg, c.Stream, ccb.NewAd(map[string]any{ccb.AttrResult: false, ccb.AttrErrorString: b.Plan.PMsg}))
+		attrs := map[string]any{ccb.AttrResult: false, ccb.AttrErrorString: b.Plan.PMsg}
+		claimTok = ccbWithReplyClaim(attrs, b.Plan.PClaim, b.Plan.PRand, &env)
+		_ = ccb.WriteControlAd(bg, c.Stream, ccb.NewAd(attrs))
 	case "unsup":
 		_ = ccb.WriteControlAd(bg, c.Stream, ccb.NewAd(map[string]any{ccb.AttrResult: false, ccb.AttrCCBStreamingUnsupported: true, ccb.AttrName: "oldbroker"}))
 	case "close":
@@ -722,7 +779,7 @@ func (b *ccbBroker) runProxy(ctx context.Context, c *cedarserver.Conn) {
 		_, _, p.Tok, _ = b.Plan.PHello.wire(b.env())
 		return
 	}
-	p.send(b.env())
+	p.send(env)
 	if b.Plan.PReply != "ok" {
 		// without a success reply the hello is never looked at: this connection is owed a close
 		p.Matching = false
